@@ -580,13 +580,16 @@ def r13_tested_value_is_stored(ctx):
     kv, vv = params[1], params[2]
     cfg = CFG(fn)
     rd = reaching_defs(cfg)
+    from ..symres import Resolver as _Rr
+    Rr = _Rr(fn, keep={vv, kv})
     comps = []
     for n in walk_no_nested(fn, False):
         if isinstance(n, ast.Compare) and len(n.ops) == 1 and isinstance(
                 n.ops[0], (ast.Eq, ast.NotEq)):
-            sides = [norm(n.left), norm(n.comparators[0])]
-            if vv in sides and any(s_ in (f"self[{kv}]", f"self.get({kv})")
-                                   for s_ in sides):
+            sides = [Rr.text(n.left), Rr.text(n.comparators[0])]
+            if any(norm(x) == vv for x in (n.left, n.comparators[0])) and \
+                    any(s_ in (f"self[{kv}]", f"self.get({kv})")
+                        for s_ in sides):
                 comps.append(n)
     ctx.floor("comparisons of the stored setting with the request",
               len(comps), 1)
@@ -629,6 +632,30 @@ def r13_tested_value_is_stored(ctx):
             if isinstance(a0, ast.Call) and call_name(a0) in (
                     "copy.deepcopy", "copy.copy", "deepcopy") and a0.args:
                 a0 = a0.args[0]
+            if isinstance(a0, ast.Name) and a0.id != vv:
+                # a local that only ever holds a copy of the request
+                dd = [cfg.nodes[d] for (v, d) in rd.get(sn.id, ())
+                      if v == a0.id]
+                if dd and all(
+                        x.kind == "stmt" and isinstance(x.ast, ast.Assign)
+                        and isinstance(x.ast.value, ast.Call) and call_name(
+                            x.ast.value) in ("copy.deepcopy", "copy.copy",
+                                             "deepcopy")
+                        and x.ast.value.args and norm(
+                            x.ast.value.args[0]) == vv for x in dd):
+                    at_store = set()
+                    for x in dd:
+                        at_store |= origin({d for (v, d) in rd.get(x.id, ())
+                                            if v == vv})
+                    extra = at_store - at_cmp
+                    ctx.check(not extra, st, f"the request compared at line "
+                              f"{cmp_.lineno} is what is stored",
+                              f"FitProperties.__setitem__ rewrites `{vv}` "
+                              f"after comparing it with the stored setting "
+                              f"(`{norm(cmp_)}`) and before storing a copy "
+                              "of it: an unchanged request in the caller's "
+                              "spelling is taken for a change")
+                    continue
             if norm(a0) != vv:
                 ctx.fail(st, f"stored value {norm(arg)[:40]}",
                          f"FitProperties.__setitem__ compares `{norm(cmp_)}`"
